@@ -326,16 +326,28 @@ impl Objects {
                 .and_then(|c| c[1].parse().ok())
                 .unwrap_or(0);
         }
+        let mut neg = false;
         if t == "Sc" && d.get("step").is_some() {
             i = self.step_index(
                 s("s"),
                 s("step"),
                 d["line"].as_u64().unwrap_or(0),
             );
+            // The TLA+ records have no Background/Step flag: it follows from
+            // the step's position.  An event whose kind contradicts that
+            // position is projected with a negated index, so it can never
+            // equal the expected event.
+            if let Some((_, _, sc, steps)) = self.scens.get(s("s")) {
+                let nbg = steps.len().saturating_sub(sc.steps.len()) as u64;
+                let declared_bg = i >= 1 && i <= nbg;
+                if i >= 1 && d["bg"].as_bool() != Some(declared_bg) {
+                    neg = true;
+                }
+            }
         }
         json!({
             "t": t, "f": s("f"), "r": s("r"), "s": s("s"), "k": s("k"),
-            "h": s("h"), "i": i, "err": s("err"),
+            "h": s("h"), "i": if neg { -(i as i64) } else { i as i64 }, "err": s("err"),
             "cur": d.get("cur").and_then(Value::as_u64).unwrap_or(0),
             "left": d.get("left").and_then(Value::as_u64).unwrap_or(0),
             "retr": d.get("retr").and_then(Value::as_bool).unwrap_or(false),
